@@ -5,7 +5,7 @@
 //@trusted Reader model (trait Read, as prelude/wal_env.rs): view = (bytes, pos); read_exact(buf) Ok consumes exactly |buf| bytes and copies them into buf; the byte string never changes
 //@trusted u32::from_le_bytes / u64::from_le_bytes are vstd's spec_u32_from_le_bytes / spec_u64_from_le_bytes of the array (std-rename stubs)
 //@trusted String::from_utf8(v) Ok => the string is utf8(v) (uninterpreted decoding function of the bytes), Err iff the bytes are not valid UTF-8 (uninterpreted utf8_valid)
-//@trusted Path model: Path::new(s) views as s; is_absolute() == path_abs(s); components() iterates over comps(s) (uninterpreted: std::path's documented splitting into Prefix / RootDir / CurDir / ParentDir / Normal components); str::is_empty() is vstd's
+//@trusted Path model (UNIX): Path::new(s) views as s; is_absolute() == path_abs(s) := s starts with '/'; components() iterates over comps(s), a spec-function mirror of std::path's documented algorithm on Unix: split at '/', empty segments vanish, "." counts only as the very first segment of a relative path, ".." is ParentDir, a leading '/' is RootDir, everything else Normal.  That std implements exactly this is the trusted equation; its consequences (lemma_single_normal_chars, lemma_plain_name_ok, lemma_trailing_separator_accepted) are proved.  Windows (prefixes, '\\' as separator) is not modelled; str::is_empty() is vstd's
 macro_rules! vec { () => { Vec::new() }; ($e:expr; $n:expr) => { crate::vec_from_elem($e, $n) } }
 verus! {
 global size_of usize == 8;
@@ -42,8 +42,80 @@ pub uninterp spec fn utf8(b: Seq<u8>) -> Seq<char>;
 // ---- path model: the component sequence of a path string (std::path's documented splitting)
 #[derive(PartialEq, Eq, Structural, Clone, Copy)]
 pub enum CompKind { Prefix, RootDir, CurDir, ParentDir, Normal }
-pub uninterp spec fn comps(s: Seq<char>) -> Seq<CompKind>;
-pub uninterp spec fn path_abs(s: Seq<char>) -> bool;
+// ---- mirror of std::path::Path::components on Unix, over the characters of the path string
+pub open spec fn first_sep(s: Seq<char>) -> int decreases s.len() {
+    if s.len() == 0 { 0 } else if s[0] == '/' { 0 } else { 1 + first_sep(s.drop_first()) }
+}
+pub proof fn lemma_first_sep(s: Seq<char>)
+    ensures 0 <= first_sep(s) <= s.len(),
+        first_sep(s) < s.len() ==> s[first_sep(s)] == '/',
+        forall|i: int| 0 <= i < first_sep(s) ==> s[i] != '/',
+    decreases s.len()
+{
+    if s.len() == 0 {} else if s[0] == '/' {} else {
+        lemma_first_sep(s.drop_first());
+        assert forall|i: int| 0 <= i < first_sep(s) implies s[i] != '/' by {
+            if i > 0 { assert(s[i] == s.drop_first()[i - 1]); }
+        }
+        if first_sep(s) < s.len() { assert(s[first_sep(s)] == s.drop_first()[first_sep(s) - 1]); }
+    }
+}
+pub open spec fn is_dot(seg: Seq<char>) -> bool { seg.len() == 1 && seg[0] == '.' }
+pub open spec fn is_dotdot(seg: Seq<char>) -> bool { seg.len() == 2 && seg[0] == '.' && seg[1] == '.' }
+// the component a '/'-separated segment contributes: empty segments vanish, "." only counts as the very first segment of a relative path
+pub open spec fn seg_kind(seg: Seq<char>, lead: bool) -> Option<CompKind> {
+    if seg.len() == 0 { None }
+    else if is_dot(seg) { if lead { Some(CompKind::CurDir) } else { None } }
+    else if is_dotdot(seg) { Some(CompKind::ParentDir) }
+    else { Some(CompKind::Normal) }
+}
+pub open spec fn opt_seq(k: Option<CompKind>) -> Seq<CompKind> { match k { Some(c) => seq![c], None => Seq::empty() } }
+pub open spec fn rel_comps(s: Seq<char>, lead: bool) -> Seq<CompKind> decreases s.len() {
+    let i = first_sep(s);
+    if 0 <= i < s.len() { opt_seq(seg_kind(s.take(i), lead)) + rel_comps(s.skip(i + 1), false) }
+    else { opt_seq(seg_kind(s, lead)) }
+}
+pub open spec fn path_abs(s: Seq<char>) -> bool { s.len() > 0 && s[0] == '/' }
+pub open spec fn comps(s: Seq<char>) -> Seq<CompKind> {
+    if path_abs(s) { seq![CompKind::RootDir] + rel_comps(s.drop_first(), false) } else { rel_comps(s, true) }
+}
+// ---- what the segments of a path look like
+pub open spec fn n_dotdot(s: Seq<char>) -> nat decreases s.len() {
+    let i = first_sep(s);
+    if 0 <= i < s.len() { (if is_dotdot(s.take(i)) { 1nat } else { 0nat }) + n_dotdot(s.skip(i + 1)) }
+    else { if is_dotdot(s) { 1nat } else { 0nat } }
+}
+pub open spec fn n_normal(s: Seq<char>) -> nat decreases s.len() {
+    let i = first_sep(s);
+    if 0 <= i < s.len() { (if seg_kind(s.take(i), false) == Some(CompKind::Normal) { 1nat } else { 0nat }) + n_normal(s.skip(i + 1)) }
+    else { if seg_kind(s, false) == Some(CompKind::Normal) { 1nat } else { 0nat } }
+}
+pub open spec fn all_normal(k: Seq<CompKind>) -> bool { forall|i: int| 0 <= i < k.len() ==> k[i] == CompKind::Normal }
+pub open spec fn first_seg(s: Seq<char>) -> Seq<char> { s.take(first_sep(s)) }
+
+pub proof fn lemma_rel_comps(s: Seq<char>, lead: bool)
+    ensures
+        all_normal(rel_comps(s, lead)) ==> n_dotdot(s) == 0 && rel_comps(s, lead).len() == n_normal(s) && !(lead && is_dot(first_seg(s))),
+    decreases s.len()
+{
+    lemma_first_sep(s);
+    let i = first_sep(s);
+    if 0 <= i < s.len() {
+        let head = opt_seq(seg_kind(s.take(i), lead));
+        let rest = rel_comps(s.skip(i + 1), false);
+        lemma_rel_comps(s.skip(i + 1), false);
+        if all_normal(head + rest) {
+            assert forall|j: int| 0 <= j < rest.len() implies rest[j] == CompKind::Normal by {
+                assert((head + rest)[head.len() + j] == rest[j]);
+            }
+            if head.len() > 0 { assert((head + rest)[0] == head[0]); }
+        }
+    } else {
+        assert(s.take(s.len() as int) =~= s);
+        let head = opt_seq(seg_kind(s, lead));
+        if all_normal(head) && head.len() > 0 { assert(head[0] == CompKind::Normal); }
+    }
+}
 #[verifier::external_body] pub struct OsStr { _p: core::marker::PhantomData<()> }
 pub enum Component { Prefix(OsStr), RootDir, CurDir, ParentDir, Normal(OsStr) }
 pub open spec fn kind_of(c: Component) -> CompKind {
@@ -79,6 +151,41 @@ pub open spec fn single_normal(s: Seq<char>) -> bool {
     &&& !path_abs(s)
     &&& comps(s).len() == 1
     &&& comps(s)[0] == CompKind::Normal
+}
+// what an accepted member name looks like, in characters
+pub proof fn lemma_single_normal_chars(s: Seq<char>)
+    requires single_normal(s),
+    ensures
+        s[0] != '/',
+        n_dotdot(s) == 0,
+        n_normal(s) == 1,
+        !is_dot(first_seg(s)),
+{
+    lemma_rel_comps(s, true);
+}
+// a plain file name (no separator, not "", ".", "..") is accepted
+pub proof fn lemma_plain_name_ok(s: Seq<char>)
+    requires s.len() > 0, forall|i: int| 0 <= i < s.len() ==> s[i] != '/', !is_dot(s), !is_dotdot(s),
+    ensures single_normal(s),
+{
+    lemma_first_sep(s);
+    if first_sep(s) < s.len() { assert(s[first_sep(s)] == '/'); }
+}
+// but so is a name with a trailing separator: "a/" (finding: the separator check is by component, and components() normalises)
+pub proof fn lemma_trailing_separator_accepted()
+    ensures single_normal(seq!['a', '/']),
+{
+    let s = seq!['a', '/'];
+    reveal_with_fuel(first_sep, 3);
+    assert(s.drop_first() =~= seq!['/']);
+    assert(first_sep(s) == 1);
+    assert(s.take(1) =~= seq!['a']);
+    assert(s.skip(2) =~= Seq::<char>::empty());
+    assert(first_sep(Seq::<char>::empty()) == 0);
+    reveal_with_fuel(rel_comps, 3);
+    assert(rel_comps(Seq::<char>::empty(), false) =~= Seq::<CompKind>::empty());
+    assert(seg_kind(seq!['a'], true) == Some(CompKind::Normal));
+    assert(rel_comps(s, true) =~= seq![CompKind::Normal]);
 }
 
 //@item engine/src/backup.rs const MAX_BACKUP_ARCHIVE_FILES
